@@ -504,13 +504,31 @@ def rule_cli_hl2(ctx, R):
     pulls = [s for s in S.calls if core.callee_base(s["key"]) == "core::iter::Iterator::next" and
              any(x[0] == "call" and core.callee_base(x[1]) == "core::iter::Iterator::enumerate" for x in walk(s["args"][0])) and
              any(x[0] == "call" and x[1] == "alloc::vec::from_elem" or x[0] == "var" for x in walk(s["args"][0]))]
+    indexed = False
+    if len(pulls) != 1:
+        # the same walk as an index loop: `for pos in 0..buf.len() { .. buf[pos] .. }`
+        def over_buf(r):
+            if r[0] == "agg" and r[1] == "core::ops::Range":
+                f = dict(r[3])
+                return is_const(f["start"], 0) and f["end"][0] == "call" and isinstance(f["end"][1], str) and \
+                    core.callee_base(f["end"][1]) == "alloc::vec::Vec::len" and f["end"][2] and f["end"][2][0][0] == "var"
+            return False
+        from .pat import iter_origin
+        pulls = [s for s in S.calls if core.callee_base(s["key"]) == "core::iter::Iterator::next" and over_buf(iter_origin(s["args"][0]))]
+        indexed = len(pulls) == 1
     if len(pulls) != 1:
         ctx.bad("CLI-HL2", b, "print-loop", b.span, "one loop over the enumerated delta buffer expected; found %d" % len(pulls))
         return
     psite = (b.path, pulls[0]["bb"])
     item = P(C(anykey, ANY, site=psite))
-    pos = F(item, "0", "(tuple)")
-    delta = F(item, "1", "(tuple)")
+    if indexed:
+        from .pat import iter_origin
+        bufv = dict(iter_origin(pulls[0]["args"][0])[3])["end"][2][0]
+        pos = item
+        delta = E(lambda t, e: core.same(t, bufv), item)
+    else:
+        pos = F(item, "0", "(tuple)")
+        delta = F(item, "1", "(tuple)")
     # segment writes: Index(line, Range{start, end}) / RangeFrom
     segs = [s for s in S.calls if core.callee_base(s["key"]) == "core::ops::Index::index" and m(line, s["args"][0])]
     in_loop = [s for s in segs if s["args"][1][0] == "agg" and s["args"][1][1] == "core::ops::Range"]
